@@ -1,5 +1,403 @@
 import Driver.Proto
+import TonicModel.Basic.ReflDescriptor
+import TonicModel.Model.Reflection
+import TonicModel.Spec.Reflection
+import TonicModel.Model.ReflectionWire
+import TonicModel.Spec.ReflectionWire
+/-
+C19 driver.  Case grammar: see harness/src/c19.rs.  The model output is computed with
+`Reflection.build` / `Reflection.runStream` (one model for v1 and v1alpha, instantiated with the
+version's own descriptor); the verdict evaluates `Spec.Reflection` on the *observed* answers:
+
+  build-succeeds                  all sets decodable and all names present ⇒ the service builds
+  symbol-resolves-to-declaring-file   an answer to file_containing_symbol n is a registered file f with Declares f n
+  declared-symbol-resolves        NOT_FOUND for n only if no (unconflicted) registered file declares n
+  unknown-is-not-found            the error for an unresolvable symbol / file name is NOT_FOUND
+  file-by-name                    an answer to file_by_filename nm is a registered file named nm
+  registered-file-retrievable     NOT_FOUND for nm only if no registered file is named nm
+  descriptor-decodes-to-registered  every descriptor answer decodes to one of the registered descriptors
+  services-chosen / services-exactly-declared / services-only-declared / services-all-declared
+  answers-every-request           a stream without error has one answer per request
+  versions-agree                  without the own descriptors, v1 and v1alpha answer identically
+-/
 namespace DriverC19
-/-- stub: property not yet claimed -/
-def handle (_case _obs : List String) : String × String := ("unclaimed", "fail:unclaimed")
+open Proto Refl
+
+/-! ### token parser -/
+
+abbrev PM := StateT (List String) Option
+
+def tok : PM String := fun s => match s with
+  | [] => none
+  | t :: r => some (t, r)
+
+def expect (t : String) : PM Unit := do
+  let x ← tok
+  if x = t then pure () else failure
+
+def pNat : PM Nat := do
+  let x ← tok
+  match x.toNat? with
+  | some n => pure n
+  | none => failure
+
+def pBytes : PM Bytes := do
+  let x ← tok
+  match unhex x with
+  | some b => pure b
+  | none => failure
+
+def pNm : PM (Option Name) := do
+  let x ← tok
+  if x = "-" then pure none else
+  match unhex x with
+  | some b => pure (some b)
+  | none => failure
+
+def pMany {α} (p : PM α) : Nat → PM (List α)
+  | 0 => pure []
+  | k + 1 => do
+    let a ← p
+    let r ← pMany p k
+    pure (a :: r)
+
+def pCounted {α} (p : PM α) : PM (List α) := do
+  let k ← pNat
+  pMany p k
+
+def pEnum : PM EnumD := do
+  let n ← pNm
+  let vs ← pCounted pNm
+  pure { name := n, values := vs }
+
+def pMsg : Nat → PM Msg
+  | 0 => failure
+  | fuel + 1 => do
+    let n ← pNm
+    let nested ← pCounted (pMsg fuel)
+    let enums ← pCounted pEnum
+    let fields ← pCounted pNm
+    let oneofs ← pCounted pNm
+    pure (.mk n (MsgList.ofList nested) enums fields oneofs)
+
+def pSvc : PM Service := do
+  let n ← pNm
+  let ms ← pCounted pNm
+  pure { name := n, methods := ms }
+
+def pFile : PM File := do
+  expect "F"
+  let name ← pNm
+  let package ← pNm
+  let extra ← pNat
+  let msgs ← pCounted (pMsg 80)
+  let enums ← pCounted pEnum
+  let svcs ← pCounted pSvc
+  pure { name, package, messages := MsgList.ofList msgs, enums, services := svcs, extra }
+
+/-- a registration as the case gives it: kind, files (`none` = bytes prost rejects) -/
+inductive CReg where
+  | s (fs : List File)
+  | e (fs : List File)
+  | b
+
+def pReg : PM CReg := do
+  let k ← tok
+  if k = "S" then do
+    let fs ← pCounted pFile
+    pure (.s fs)
+  else if k = "E" then do
+    let fs ← pCounted pFile
+    pure (.e fs)
+  else if k = "B" then do
+    let _ ← pBytes
+    pure .b
+  else failure
+
+def pReqK : PM Reflection.Req := do
+  let k ← tok
+  if k = "N" then pure .none
+  else if k = "F" then do let s ← pBytes; pure (.fileByFilename s)
+  else if k = "Y" then do let s ← pBytes; pure (.fileContainingSymbol s)
+  else if k = "X" then do
+    let s ← pBytes
+    let n ← tok
+    match n.toInt? with
+    | some n => pure (.fileContainingExtension s n)
+    | none => failure
+  else if k = "A" then do let s ← pBytes; pure (.allExtensionNumbersOfType s)
+  else if k = "L" then do let s ← pBytes; pure (.listServices s)
+  else failure
+
+def pReq : PM Reflection.Request := do
+  let host ← pBytes
+  let k ← pReqK
+  pure { host := host, messageRequest := k }
+
+structure Case where
+  inc : Bool
+  chosen : Option (List Name)
+  regs : List CReg
+  streams : List (List Reflection.Request)
+  own : Option (File × File)
+
+def pCase : PM Case := do
+  expect "inc"
+  let i ← tok
+  let inc ← if i = "1" then pure true else if i = "0" then pure false else failure
+  expect "chosen"
+  let rest ← get
+  let chosen ← match rest with
+    | "none" :: r => do set r; pure none
+    | _ => do
+      let l ← pCounted pBytes
+      -- `with_service_name` never called = all services; an empty chosen list cannot be built
+      pure (if l.isEmpty then none else some l)
+  expect "regs"
+  let regs ← pCounted pReg
+  expect "streams"
+  let streams ← pCounted (pCounted pReq)
+  let own ← if inc then do
+      expect "own"
+      let a ← pFile
+      let b ← pFile
+      pure (some (a, b))
+    else pure none
+  let rest ← get
+  if rest.isEmpty then pure { inc, chosen, regs, streams, own } else failure
+
+/-! ### model side -/
+
+def toReg : CReg → Reflection.Reg
+  | .s fs => .decoded fs
+  | .e fs => .encoded (some fs)
+  | .b => .encoded none
+
+/-- all registered descriptors in registration (call) order, own descriptor last -/
+def allFiles (c : Case) (own : Option File) : List File :=
+  (c.regs.map (fun r => match r with | .s fs => fs | .e fs => fs | .b => [])).flatten
+    ++ (match own with | some o => [o] | none => [])
+
+def kindText : Reflection.Kind → String
+  | .message => "message" | .enum => "enum" | .enumValue => "enum value" | .field => "field"
+  | .oneof => "oneof" | .service => "service" | .method => "method"
+
+def errText : Reflection.Err → String
+  | .decode => "build-err decode"
+  | .missingFileName => "build-err invalid " ++ hex (Ascii.ofString "missing name")
+  | .missing k => "build-err invalid " ++ hex (Ascii.ofString ("missing " ++ kindText k ++ " name"))
+
+def hexDigit (n : Nat) : Char := Hex.digit n
+
+/-- 16 lower-case hex digits of a 64-bit value -/
+def hex64 (v : UInt64) : String :=
+  String.ofList ((List.range 16).map (fun i => hexDigit ((v.toNat >>> (4 * (15 - i))) % 16)))
+
+/-- the bytes token of a descriptor answer: `-` (opaque descriptor), the bytes, or their digest -/
+def bytesToken (f : File) : String :=
+  if f.extra ≠ 0 then "-"
+  else
+    let b := ReflWire.encFile f
+    if b.length ≤ 96 then hex b else "h" ++ hex64 (ReflWire.fnv1a b)
+
+/-- `files` paired with their (precomputed) bytes tokens -/
+def indexOf (files : List (File × String)) (f : File) : String :=
+  match files.findIdx? (fun g => decide (g.1 = f)) with
+  | some i => s!"fd {i} {(files[i]?.map (·.2)).getD "-"}"
+  | none => "fd-unknown"
+
+def answerText (files : List (File × String)) : Reflection.Answer → List String
+  | .fileDescriptor f => [indexOf files f]
+  | .extensionNumbers => ["ext-empty"]
+  | .services l => [s!"svcs {l.length}"] ++ l.map hex
+
+/-- `r1`: the i-th response carries the i-th request's host and the request itself -/
+def responseTexts (files : List (File × String)) : List Reflection.Request → List Reflection.Response → List String
+  | rq :: rqs, rs :: rss =>
+    (if decide (rs.validHost = rq.host) && decide (rs.originalRequest = rq) then "r1" else "r0")
+      :: answerText files rs.answer ++ responseTexts files rqs rss
+  | [], rs :: rss => "r0" :: answerText files rs.answer ++ responseTexts files [] rss
+  | _, [] => []
+
+def streamText (files : List (File × String)) (st : Reflection.State) (reqs : List Reflection.Request) : List String :=
+  let (as, fin) := Reflection.runStream st reqs
+  ["["] ++ responseTexts files reqs as ++
+    (match fin with
+     | none => ["end"]
+     | some (c, m) => [s!"err {c.toNat} {hex m}"]) ++ ["]"]
+
+def modelVersion (c : Case) (own : Option File) : String :=
+  let cfg : Reflection.Config :=
+    { regs := c.regs.map toReg, chosen := c.chosen, own := own.map (fun o => [o]) }
+  match Reflection.build cfg with
+  | .error e => errText e
+  | .ok st =>
+    let files := (allFiles c own).map (fun f => (f, bytesToken f))
+    String.intercalate " " ("ok" :: (c.streams.map (streamText files st)).flatten)
+
+/-! ### observed side -/
+
+inductive OAns where
+  | fd (i : Nat) (bytes : Option Bytes) | ext | svcs (l : List Name) | junk (what : String)
+
+inductive OEnd where
+  | fin | err (code : Nat) | junk
+
+inductive OBuild where
+  | err | ok (streams : List (List OAns × OEnd)) | junk
+
+def takeHex : Nat → List String → Option (List Name × List String)
+  | 0, ts => some ([], ts)
+  | k + 1, t :: ts => do
+    let b ← unhex t
+    let (r, ts') ← takeHex k ts
+    pure (b :: r, ts')
+  | _ + 1, [] => none
+
+/-- one stream `[ … ]`; fuel = number of tokens -/
+def oStream : Nat → List String → List OAns → Option ((List OAns × OEnd) × List String)
+  | 0, _, _ => none
+  | fuel + 1, ts, acc =>
+    match ts with
+    | "end" :: "]" :: r => some ((acc.reverse, .fin), r)
+    | "err" :: c :: _ :: "]" :: r => some ((acc.reverse, .err (c.toNat?.getD 0)), r)
+    | "r1" :: "fd" :: i :: w :: r => match i.toNat? with
+        | some i => oStream fuel r (.fd i (unhex w) :: acc)
+        | none => none
+    | "r1" :: "ext-empty" :: r => oStream fuel r (.ext :: acc)
+    | "r1" :: "svcs" :: k :: r => match k.toNat? with
+        | some k => match takeHex k r with
+          | some (l, r') => oStream fuel r' (.svcs l :: acc)
+          | none => none
+        | none => none
+    | "r1" :: "fds" :: _ :: r => oStream fuel r (.junk "fds" :: acc)
+    | "r1" :: w :: r => oStream fuel r (.junk w :: acc)
+    | "r0" :: _ => some ((acc.reverse ++ [.junk "echo"], .junk), [])
+    | _ => none
+
+def oStreams : Nat → List String → List (List OAns × OEnd) → Option (List (List OAns × OEnd) × List String)
+  | 0, _, _ => none
+  | fuel + 1, ts, acc =>
+    match ts with
+    | "[" :: r => match oStream (r.length + 1) r [] with
+        | some (s, r') => oStreams fuel r' (s :: acc)
+        | none => none
+    | _ => some (acc.reverse, ts)
+
+/-- observed tokens of one version, up to the next version marker -/
+def oBuild (ts : List String) : OBuild × List String :=
+  match ts with
+  | "build-err" :: "decode" :: r => (.err, r)
+  | "build-err" :: "invalid" :: _ :: r => (.err, r)
+  | "ok" :: r => match oStreams (r.length + 1) r [] with
+      | some (ss, r') => (.ok ss, r')
+      | none => (.junk, [])
+  | _ => (.junk, [])
+
+/-! ### spec verdict on the observed answers -/
+
+/-- when the answer bytes themselves were observed: the oracle's own protobuf reader (not
+prost) turns them into exactly the registered descriptor -/
+def decodesTo (files : List File) (i : Nat) : Option Bytes → Bool
+  | none => true
+  | some bs => match files[i]?, Spec.ReflWire.decFile 100 bs with
+    | some f, some g => decide (g = f)
+    | _, _ => false
+
+open Spec.Reflection in
+def judgeAnswer (c : Case) (files : List File) (rq : Reflection.Req) (a : OAns) : List (String × Bool) :=
+  match rq, a with
+  | _, .junk w =>
+    if w = "fd-unknown" || w = "fd-undecodable" || w = "fds" then
+      [("descriptor-decodes-to-registered", false)]
+    else [("answer-shape:" ++ w, false)]
+  | .fileContainingSymbol n, .fd i bs =>
+    [("symbol-resolves-to-declaring-file", match files[i]? with
+      | some f => declares f n
+      | none => false),
+     ("descriptor-decodes-to-registered", decodesTo files i bs)]
+  | .fileContainingSymbol _, _ => [("symbol-answer-kind", false)]
+  | .fileByFilename nm, .fd i bs =>
+    [("file-by-name", match files[i]? with
+      | some f => decide (f.name = some nm)
+      | none => false),
+     ("descriptor-decodes-to-registered", decodesTo files i bs)]
+  | .fileByFilename _, _ => [("file-answer-kind", false)]
+  | .listServices _, .svcs l =>
+    match c.chosen with
+    | some ch => [("services-chosen", decide (l = ch))]
+    | none =>
+      [("services-exactly-declared",
+          -- without contested file names the list is, up to order, the services of one copy of
+          -- every registered file (registering a file twice must not list its services twice)
+          !(files.all (fun f => decide (Unconflicted files f)))
+            || l.isPerm ((served files).flatMap serviceNames)),
+       ("services-only-declared", l.all (fun n => files.any (fun f => declaresService f n))),
+       ("services-all-declared", files.all (fun f => !decide (Unconflicted files f) ||
+          f.services.all (fun s => match s.name with
+            | some sn => l.contains (qual (pkg f) sn)
+            | none => true)))]
+  | .listServices _, _ => [("services-answer-kind", false)]
+  | _, _ => []
+
+open Spec.Reflection in
+def judgeEnd (files : List File) (rq : Reflection.Req) (code : Nat) : List (String × Bool) :=
+  match rq with
+  | .fileContainingSymbol n =>
+    [("unknown-is-not-found", code == 5),
+     ("declared-symbol-resolves", files.all (fun f => !(decide (Unconflicted files f) && declares f n)))]
+  | .fileByFilename nm =>
+    [("unknown-is-not-found", code == 5),
+     ("registered-file-retrievable", files.all (fun f => !decide (f.name = some nm)))]
+  | _ => []
+
+def judgeStream (c : Case) (files : List File) : List Reflection.Request → List OAns → OEnd → List (String × Bool)
+  | rq :: rqs, a :: as, e => judgeAnswer c files rq.messageRequest a ++ judgeStream c files rqs as e
+  | [], _ :: _, _ => [("more-answers-than-requests", false)]
+  | [], [], .fin => []
+  | _ :: _, [], .fin => [("answers-every-request", false)]
+  | [], [], .err _ => [("error-without-request", false)]
+  | rq :: _, [], .err code => judgeEnd files rq.messageRequest code
+  | _, [], .junk => [("stream-shape", false)]
+
+def judgeStreams (c : Case) (files : List File) : List (List Reflection.Request) → List (List OAns × OEnd) → List (String × Bool)
+  | rs :: rss, (as, e) :: oss => judgeStream c files rs as e ++ judgeStreams c files rss oss
+  | [], [] => []
+  | _, _ => [("stream-count", false)]
+
+def judgeVersion (c : Case) (own : Option File) (o : OBuild) : List (String × Bool) :=
+  let files := allFiles c own
+  let decodable := c.regs.all (fun r => match r with | .b => false | _ => true)
+  let wellNamed := files.all Spec.Reflection.File.wellNamed
+  match o with
+  | .junk => [("observed-shape", false)]
+  | .err => [("build-succeeds", !(decodable && wellNamed))]
+  | .ok ss => judgeStreams c files c.streams ss
+
+def splitAt (ts : List String) (marker : String) : List String × List String :=
+  (ts.takeWhile (· ≠ marker), (ts.dropWhile (· ≠ marker)).drop 1)
+
+def handle (case obs : List String) : String × String :=
+  -- leading label (`corpus`, `structured`, …) is for the evidence statistics only
+  let case := match case with
+    | t :: r => if t = "inc" then case else r
+    | [] => case
+  match (pCase.run case) with
+  | some (c, _) =>
+    let own1 := c.own.map (·.1)
+    let own1a := c.own.map (·.2)
+    let m1 := modelVersion c own1
+    let cls := if m1.startsWith "ok" then "built"
+      else if m1.startsWith "build-err decode" then "rejected-undecodable" else "rejected-unnamed"
+    let model := cls ++ " v1 " ++ m1 ++ " v1a " ++ modelVersion c own1a
+    let v := match obs with
+      | _ :: "v1" :: rest =>
+        let (o1, o1a) := splitAt rest "v1a"
+        let clauses := judgeVersion c own1 (oBuild o1).1 ++ judgeVersion c own1a (oBuild o1a).1
+          ++ [("versions-agree", c.inc || decide (o1 = o1a))]
+        verdict clauses
+      | _ => "fail:observed-shape"
+    (model, v)
+  | none => bad
+
 end DriverC19
